@@ -115,7 +115,7 @@ static long double dy(Rng& g, int maxnum, int maxexp) {      // +-num * 2^-j
 }
 static void section_gen() {
     Rng g(seed_from_env() * 7919 + 10);
-    const int K = thorough ? 10 : 1;
+    const int K = thorough ? 25 : 2;      // quick: 2, thorough: 25 (about 10x)
     int idx = 0;
     for (int n = 2; n <= 4; ++n) {
         long double m[16];
@@ -127,13 +127,13 @@ static void section_gen() {
         for (int i = 0; i < n * n; ++i) m[i] = (long double)(i * i % 7 + (i / n == i % n ? 3 : 0)) / 4;
         dispatch(n, "fixed", m, idx++);
         // G1: small integers
-        for (int k = 0; k < 60 * K; ++k) {
+        for (int k = 0; k < 12 * K; ++k) {
             int w = (k % 3 == 0) ? 1 : (k % 3 == 1 ? 3 : 9);
             for (int i = 0; i < n * n; ++i) m[i] = (long double)((long long)g.below(2 * w + 1) - w);
             dispatch(n, "smallint", m, idx++);
         }
         // G2: triangular, dyadic entries, non-zero diagonal
-        for (int k = 0; k < 24 * K; ++k) {
+        for (int k = 0; k < 6 * K; ++k) {
             bool upper = k % 2 == 0;
             for (int c = 0; c < n; ++c) for (int r = 0; r < n; ++r) {
                 long double x = 0;
@@ -144,7 +144,7 @@ static void section_gen() {
             dispatch(n, upper ? "upper" : "lower", m, idx++);
         }
         // G3: permutation-like: signed permutation times a dyadic diagonal
-        for (int k = 0; k < 20 * K; ++k) {
+        for (int k = 0; k < 5 * K; ++k) {
             int p[4] = {0, 1, 2, 3};
             for (int i = n - 1; i > 0; --i) { int j = (int)g.below(i + 1); int t = p[i]; p[i] = p[j]; p[j] = t; }
             for (int i = 0; i < n * n; ++i) m[i] = 0;
@@ -191,13 +191,13 @@ static void section_gen() {
             }
         }
         // G6: random dyadic k / 2^j; diagonally dominant (well conditioned) and general
-        for (int k = 0; k < 80 * K; ++k) {
-            for (int i = 0; i < n * n; ++i) m[i] = dy(g, 64, 6);
-            if (k % 2 == 0) for (int c = 0; c < n; ++c) m[c * n + c] += (g.below(2) ? 1 : -1) * (long double)(40 * n);
+        for (int k = 0; k < 16 * K; ++k) {
+            for (int i = 0; i < n * n; ++i) m[i] = (k % 8 < 6) ? dy(g, 15, 2) : dy(g, 64, 6);
+            if (k % 2 == 0) for (int c = 0; c < n; ++c) m[c * n + c] += (g.below(2) ? 1 : -1) * (long double)((k % 8 < 6 ? 10 : 40) * n);
             dispatch(n, k % 2 == 0 ? "dominant" : "random", m, idx++);
         }
         // G7: affine matrices (last row 0 .. 0 1), for affineInverse(M) itself
-        if (n >= 3) for (int k = 0; k < 30 * K; ++k) {
+        if (n >= 3) for (int k = 0; k < 6 * K; ++k) {
             for (int c = 0; c < n; ++c) for (int r = 0; r < n; ++r)
                 m[c * n + r] = (r == n - 1) ? (c == n - 1 ? 1 : 0) : (k % 3 == 0 ? (long double)((long long)g.below(5) - 2) : dy(g, 16, 3));
             if (k % 3 != 0) for (int c = 0; c + 1 < n; ++c) m[c * n + c] += 6;
@@ -283,6 +283,7 @@ template<int N, class T> static void misc_query_n(Rng& g) {
     typedef glm::mat<N, N, T, glm::defaultp> mat;
     const T epss[] = {T(0), T(1) / T(128), T(1) / T(4), T(1) / T(100), T(3) / T(2)};
     for (T eps : epss) {
+        if (!thorough && eps == T(1) / T(100) && N != 3) continue;
         T small[] = {T(0), eps / T(2), eps, eps * T(2), eps * T(9) / T(8), eps * T(7) / T(8), -eps, -eps / T(2)};
         query_sq<N, T>(mat(T(0)), eps);
         query_sq<N, T>(mat(T(1)), eps);
@@ -291,12 +292,13 @@ template<int N, class T> static void misc_query_n(Rng& g) {
         query_sq<N, T>(mat(T(1) + eps), eps);
         query_sq<N, T>(mat(T(1) + eps * T(3)), eps);
         query_sq<N, T>(mat(T(1) - eps / T(2)), eps);
-        for (T d : small) for (int pos = 0; pos < N * N; pos += (thorough ? 1 : 3)) {
+        for (int di = 0; di < 8; di += (thorough ? 1 : 2)) for (int pos = di % 2; pos < N * N; pos += (thorough ? 1 : 5)) {
+            T d = small[di + (thorough ? 0 : (pos % 2))];
             mat z(T(0)); z[pos / N][pos % N] = d; query_sq<N, T>(z, eps);                      // nearly null
             mat i(T(1)); i[pos / N][pos % N] += d; query_sq<N, T>(i, eps);                     // nearly identity
         }
         // signed permutations, rotations with Pythagorean entries, unimodular shears
-        for (int k = 0; k < (thorough ? 40 : 6); ++k) {
+        for (int k = 0; k < (thorough ? 30 : 3); ++k) {
             int p[4] = {0, 1, 2, 3};
             for (int i = N - 1; i > 0; --i) { int j = (int)g.below(i + 1); int t = p[i]; p[i] = p[j]; p[j] = t; }
             mat s(T(0));
